@@ -2,6 +2,7 @@ package main
 
 import (
 	"fmt"
+	"math"
 	"strings"
 )
 
@@ -211,7 +212,8 @@ func (w *World) Step(o HistOpts) string {
 			n, err, _ := w.Many(batch, foreign, "InsertOrUpdateMany")
 			w.abs(fmt.Sprintf("many:%d>%d,%s", len(batch), n, errClass(err)))
 		} else {
-			cs := pick(r, []int{0, 1, 2, 3, len(batch), len(batch) + 1})
+			// "all chunk sizes"
+			cs := pick(r, []int{0, 1, 2, 3, len(batch), len(batch) + 1, 0, 1, 2, 3, len(batch), len(batch) + 1, -1, math.MaxInt, math.MinInt})
 			w.Bulk(batch, cs)
 			w.abs(fmt.Sprintf("bulk:%d/%d", len(batch), cs))
 		}
